@@ -157,11 +157,17 @@ class Path(object):
         if pid == 0:
             try:
                 os.close(rfd)
-                self.solver.set("timeout", int(self.cfg.qtimeout_ms))
-                r = str(self.solver.check(*extra))
+                # a fresh, non-incremental solver: z3 then applies its logic-specific tactics (bit-blasting for QF_FP,
+                # nlsat for QF_NRA) instead of the incremental core that check-with-assumptions would use
+                s2 = z3.SolverFor(self.cfg.logic) if self.cfg.logic else z3.Solver()
+                s2.set("timeout", int(self.cfg.qtimeout_ms))
+                s2.add(self.solver.assertions())
+                for e in extra:
+                    s2.add(e)
+                r = str(s2.check())
                 vals = None
                 if r == 'sat' and eval_terms is not None:
-                    m = self.solver.model()
+                    m = s2.model()
                     vals = [val_to_py(m.eval(t, model_completion=True)) for t in eval_terms]
                 data = pickle.dumps((r, vals))
                 os.write(wfd, struct.pack('>I', len(data)) + data)
